@@ -105,6 +105,7 @@ mutual
     | .ret (some e) => szV e + 1
     | .selFromW _ _ _ w => szV w + 1
     | .while_ e b => szV e + szB b + 2
+    | .if_ e b _ _ => szV e + szB b + 2
     | _ => 1
   def szB : Block → Nat
     | .nil => 1
@@ -890,6 +891,7 @@ theorem buildStmt_ok_mono_core0 {fc : FCtx} {prev : Option Nat} {s : Stmt} {st :
 mutual
   def coreS : Stmt → Bool
     | .while_ e b => coreE e && coreB b
+    | .if_ e b .nil .none => coreE e && coreB b
     | s => coreS0 s
   def coreB : Block → Bool
     | .nil => true
@@ -996,7 +998,15 @@ theorem buildStmt_ok_mono_core (fc : FCtx) : ∀ (s : Stmt) (prev : Option Nat) 
   | .selRel c v hd ch, prev, st, hc, h => by simp [coreS, coreS0] at hc
   | .selRelW c v hd ch w, prev, st, hc, h => by simp [coreS, coreS0] at hc
   | .forEach v sv b, prev, st, hc, h => by simp [coreS, coreS0] at hc
-  | .if_ e b el els, prev, st, hc, h => by simp [coreS, coreS0] at hc
+  | .if_ e b .nil .none, prev, st, hc, h => by
+    simp only [coreS, Bool.and_eq_true] at hc
+    simp only [buildStmt, buildElifs, buildElse, withBlock, new_ok, popScope_ok] at h
+    have h1 := buildStmts_ok_mono_core fc b none _ hc.2 h
+    simp only [pushScope_ok, new_ok] at h1
+    have := buildExpr_ok_mono fc e _ h1
+    simp at this; exact this.1
+  | .if_ e b (.cons _ _ _) els, prev, st, hc, h => by simp [coreS, coreS0] at hc
+  | .if_ e b .nil (.some _), prev, st, hc, h => by simp [coreS, coreS0] at hc
   | .invoke e, prev, st, hc, h => by simp [coreS, coreS0] at hc
   | .genEvt l m d t, prev, st, hc, h => by simp [coreS, coreS0] at hc
   | .createEvt v l m d t, prev, st, hc, h => by simp [coreS, coreS0] at hc
@@ -1155,38 +1165,36 @@ theorem getElem?_lt_of_some {l : List Row} {i : Nat} {x : Row} (h : l[i]? = some
   · exact h'
   · simp [List.getElem?_eq_none h'] at h
 
-/-- `while`: ACT_SMT, the condition's values, a new ACT_BLK with its scope and statement list, ACT_WHL -/
-theorem while_spec {fc : FCtx} {prev : Option Nat} {e : Expr} {b : Block} {st : St} (hce : coreE e = true)
-    (hinv : Inv st) (hprev : ∀ k, prev = some k → k < st.pop.length)
-    (hok : (buildStmt fc prev (.while_ e b) st).2.ok = true)
+/-- a statement with ONE nested block: ACT_SMT, rows `dE` without statements (values, variables), a new ACT_BLK with its
+    scope and statement list (`accept_BlockNode`), then the R603 subtype row `mk blk` -/
+theorem blockStmt_spec {fc : FCtx} {prev : Option Nat} {s : Stmt} {b : Block} {st : St} (V : St) (mk : Nat → Row)
+    (dE : List Row)
+    (hb : buildStmt fc prev s st = (st.pop.length,
+      ((popScope (buildStmts fc none b (pushScope (.blk V.pop.length) (V.new (.blk false)).2))).new (mk V.pop.length)).2))
+    (hinv : Inv st) (hok : (buildStmt fc prev s st).2.ok = true)
+    (hdE' : V.pop = st.pop ++ (.smt (curBlkD st.scopes) prev :: dE))
+    (hplain : ∀ x ∈ dE, x.smtOf = none ∧ skeys x = [])
+    (hVts : TS V.pop) (hVsym : SymOK V) (hVsc : V.scopes = st.scopes) (hVok : V.ok = true → st.ok = true)
+    (hmk : (mk V.pop.length).smtOf = some st.pop.length ∧ skeys (mk V.pop.length) = [] ∧ (mk V.pop.length).valOf = none)
+    (hsz1 : szS s ≤ dE.length + szB b + 1) (hsz2 : szB b + 2 ≤ szS s)
     (hM : ∀ st' : St, (buildStmts fc none b st').ok = true → st'.ok = true)
-    (hC : ∀ st' : St, Inv st' → (buildStmts fc none b st').ok = true → ChainSpec fc none b st') :
-    StmtSpec fc prev (.while_ e b) st := by
-  -- names
-  have hb : buildStmt fc prev (.while_ e b) st = (st.pop.length,
-      ((popScope (buildStmts fc none b (pushScope (.blk (buildExpr fc e (newSmt prev st).2).2.pop.length)
-        ((buildExpr fc e (newSmt prev st).2).2.new (.blk false)).2))).new
-        (.whl st.pop.length (buildExpr fc e (newSmt prev st).2).2.pop.length (buildExpr fc e (newSmt prev st).2).1)).2) := by
-    simp [buildStmt, withBlock]
-  generalize hK : pushScope (.blk (buildExpr fc e (newSmt prev st).2).2.pop.length)
-        ((buildExpr fc e (newSmt prev st).2).2.new (.blk false)).2 = K at hb
-  have hKpop : K.pop = (buildExpr fc e (newSmt prev st).2).2.pop ++ [Row.blk false] := by rw [← hK]; simp
-  have hKsc : K.scopes = ⟨.blk (buildExpr fc e (newSmt prev st).2).2.pop.length, []⟩ ::
-      (buildExpr fc e (newSmt prev st).2).2.scopes := by rw [← hK]; simp
-  have hKok : K.ok = (buildExpr fc e (newSmt prev st).2).2.ok := by rw [← hK]; simp
+    (hC : ∀ st' : St, Inv st' → (buildStmts fc none b st').ok = true → ChainSpec fc none b st')
+    (hprint : ∀ (rest : List Row) (f : Nat), szS s ≤ f + 1 → (∀ x ∈ rest, ∀ k ∈ ikeys x, k ≠ st.pop.length) →
+      smtSub (V.pop ++ rest) st.pop.length = some (mk V.pop.length) →
+      regenBlk (V.pop ++ rest) f V.pop.length = genBlock b →
+      regenSmt (V.pop ++ rest) (f + 1) st.pop.length = genStmt s) :
+    StmtSpec fc prev s st := by
+  generalize hK : pushScope (.blk V.pop.length)
+        (V.new (.blk false)).2 = K at hb
+  have hKpop : K.pop = V.pop ++ [Row.blk false] := by rw [← hK]; simp
+  have hKsc : K.scopes = ⟨.blk V.pop.length, []⟩ ::
+      V.scopes := by rw [← hK]; simp
+  have hKok : K.ok = V.ok := by rw [← hK]; simp
   have hinner : (buildStmts fc none b K).ok = true := by rw [hb] at hok; simpa using hok
-  have hokV : (buildExpr fc e (newSmt prev st).2).2.ok = true := by rw [← hKok]; exact hM K hinner
-  have hts0 := newSmt_ts hinv hprev
-  have E := buildExpr_spec fc e (newSmt prev st).2 hce (newSmt_sym hinv) hts0.tsv hokV
-  obtain ⟨dE, hdE, hlE, _, hoE⟩ := E.grows
-  have hVts := hts0.expr E
-  have hVsym := E.symOK (newSmt_sym (prev := prev) hinv)
-  have hVsc : (buildExpr fc e (newSmt prev st).2).2.scopes = st.scopes := by rw [E.scopes]; simp
-  have hVlen : (buildExpr fc e (newSmt prev st).2).2.pop.length = st.pop.length + 1 + dE.length := by
-    rw [hdE]; simp; omega
+  have hVlen : V.pop.length = st.pop.length + 1 + dE.length := by rw [hdE']; simp; omega
   obtain ⟨b0, hb0, hb0lt⟩ := hinv.blk
   have invK : Inv K := by
-    refine ⟨?_, ?_, ⟨(buildExpr fc e (newSmt prev st).2).2.pop.length, by rw [hKsc]; rfl, by rw [hKpop]; simp⟩⟩
+    refine ⟨?_, ?_, ⟨V.pop.length, by rw [hKsc]; rfl, by rw [hKpop]; simp⟩⟩
     · rw [hKpop]; exact hVts.append1 _ (by simp [Row.valOf, Row.smtOf, skeys])
     · intro n v hf
       rw [hKsc] at hf
@@ -1196,14 +1204,13 @@ theorem while_spec {fc : FCtx} {prev : Option Nat} {e : Expr} {b : Block} {st : 
       rw [hKpop, List.getElem?_append_left (getElem?_lt_of_some hbb)]; exact hbb
   have C := hC K invK hinner
   obtain ⟨dC, hdC, hszC, hheadC, hkC⟩ := C.grows
-  have hKlen : K.pop.length = (buildExpr fc e (newSmt prev st).2).2.pop.length + 1 := by rw [hKpop]; simp
-  have hcbK : curBlkD K.scopes = (buildExpr fc e (newSmt prev st).2).2.pop.length := by rw [hKsc]; rfl
-  have hEregen := E.regen
-  have hok0 : st.ok = true := by have := E.ok0; simp at this; exact this.1
-  have hdE' : (buildExpr fc e (newSmt prev st).2).2.pop = st.pop ++ (.smt (curBlkD st.scopes) prev :: dE) := by
-    rw [hdE]; simp
-  clear E hdE
-  generalize buildExpr fc e (newSmt prev st).2 = X at *
+  have hKlen : K.pop.length = V.pop.length + 1 := by rw [hKpop]; simp
+  have hcbK : curBlkD K.scopes = V.pop.length := by rw [hKsc]; rfl
+  have hok0 : st.ok = true := hVok (by rw [← hKok]; exact hM K hinner)
+  have hmkne : ∀ b' p, mk V.pop.length ≠ .smt b' p := by
+    intro b' p h; have := hmk.2.1; rw [h] at this; simp [skeys] at this
+  have hmkik : ikeys (mk V.pop.length) = [] := by
+    have := hmk.2.1; cases hm : mk V.pop.length <;> simp [hm, skeys, ikeys] at this ⊢
   -- the rows between the ACT_SMT and the ACT_WHL
   have hD : ∀ x ∈ dE ++ [Row.blk false] ++ dC, (∀ k, x.smtOf = some k → st.pop.length < k) ∧
       (∀ b' p, x = .smt b' p → st.pop.length < b' ∧ ∀ k, p = some k → st.pop.length < k) ∧
@@ -1211,7 +1218,7 @@ theorem while_spec {fc : FCtx} {prev : Option Nat} {e : Expr} {b : Block} {st : 
     intro x hx
     rcases List.mem_append.1 hx with hx | hx
     · rcases List.mem_append.1 hx with hx | hx
-      · obtain ⟨h1, h2⟩ := expr_rows_plain (fc := fc) (e := e) (st := st) hoE x hx
+      · obtain ⟨h1, h2⟩ := hplain x hx
         refine ⟨fun k hk => (by rw [h1] at hk; cases hk), ?_, ?_⟩
         · intro b' p hxe; subst hxe; simp [skeys] at h2
         · intro k hk; cases x <;> simp [ikeys, skeys] at hk h2
@@ -1226,18 +1233,18 @@ theorem while_spec {fc : FCtx} {prev : Option Nat} {e : Expr} {b : Block} {st : 
       rcases hb' k hk with h | h
       · rw [hk] at h; cases h
       · omega
-  have hP : ((popScope (buildStmts fc none b K)).new (.whl st.pop.length X.2.pop.length X.1)).2.pop =
-      st.pop ++ (.smt (curBlkD st.scopes) prev :: (dE ++ [Row.blk false] ++ dC ++ [.whl st.pop.length X.2.pop.length X.1])) := by
+  have hP : ((popScope (buildStmts fc none b K)).new (mk V.pop.length)).2.pop =
+      st.pop ++ (.smt (curBlkD st.scopes) prev :: (dE ++ [Row.blk false] ++ dC ++ [mk V.pop.length])) := by
     simp [hdC, hKpop, hdE']
   have hPin : (buildStmts fc none b K).pop = st.pop ++ (.smt (curBlkD st.scopes) prev :: (dE ++ [Row.blk false] ++ dC)) := by
     simp [hdC, hKpop, hdE']
   have hinlen : (buildStmts fc none b K).pop.length = st.pop.length + 1 + (dE ++ [Row.blk false] ++ dC).length := by
     rw [hPin]; simp; omega
-  have hTS : TS ((popScope (buildStmts fc none b K)).new (.whl st.pop.length X.2.pop.length X.1)).2.pop := by
+  have hTS : TS ((popScope (buildStmts fc none b K)).new (mk V.pop.length)).2.pop := by
     simp only [new_pop, popScope_pop]
     apply C.inv.ts.append1
-    refine ⟨fun k hk => (by simp [Row.valOf] at hk), fun k hk => ?_, fun k hk => (by simp [skeys] at hk)⟩
-    simp [Row.smtOf] at hk; omega
+    refine ⟨fun k hk => (by rw [hmk.2.2] at hk; cases hk), fun k hk => ?_, fun k hk => (by rw [hmk.2.1] at hk; cases hk)⟩
+    rw [hmk.1] at hk; cases hk; omega
   -- no row before the ACT_WHL claims the statement
   have hnone : ∀ x ∈ (buildStmts fc none b K).pop, x.smtOf ≠ some st.pop.length := by
     intro x hx hxe
@@ -1251,58 +1258,48 @@ theorem while_spec {fc : FCtx} {prev : Option Nat} {e : Expr} {b : Block} {st : 
       rcases h with rfl | h
       · simp [Row.smtOf] at hxe
       · have := (hD x h).1 _ hxe; omega
-  have hfind : ∀ ext, smtSub (((popScope (buildStmts fc none b K)).new (.whl st.pop.length X.2.pop.length X.1)).2.pop ++ ext)
-      st.pop.length = some (.whl st.pop.length X.2.pop.length X.1) := by
+  have hfind : ∀ ext, smtSub (((popScope (buildStmts fc none b K)).new (mk V.pop.length)).2.pop ++ ext)
+      st.pop.length = some (mk V.pop.length) := by
     intro ext
-    apply smtSub_at (j := (buildStmts fc none b K).pop.length) hTS (by simp) rfl
+    apply smtSub_at (j := (buildStmts fc none b K).pop.length) hTS (by simp) hmk.1
     intro i x hi hj hx
     simp only [new_pop, popScope_pop] at hx
     rw [List.getElem?_append_left hj] at hx
     exact hnone x (List.mem_of_getElem? hx)
-  have hFsc : ((popScope (buildStmts fc none b K)).new (.whl st.pop.length X.2.pop.length X.1)).2.scopes = st.scopes := by
+  have hFsc : ((popScope (buildStmts fc none b K)).new (mk V.pop.length)).2.scopes = st.scopes := by
     simp [C.shape.2, hKsc, hVsc]
   have hregen : ∀ (ext : List Row) (fuel : Nat),
-      FreshS st.pop.length ((popScope (buildStmts fc none b K)).new (.whl st.pop.length X.2.pop.length X.1)).2.pop.length ext →
-      szS (.while_ e b) ≤ fuel →
-      regenSmt (((popScope (buildStmts fc none b K)).new (.whl st.pop.length X.2.pop.length X.1)).2.pop ++ ext) fuel
-        st.pop.length = genStmt (.while_ e b) := by
+      FreshS st.pop.length ((popScope (buildStmts fc none b K)).new (mk V.pop.length)).2.pop.length ext →
+      szS (s) ≤ fuel →
+      regenSmt (((popScope (buildStmts fc none b K)).new (mk V.pop.length)).2.pop ++ ext) fuel
+        st.pop.length = genStmt (s) := by
     intro ext fuel hfr hf
-    simp only [szS] at hf
     have hszb := one_le_szB b
     obtain ⟨f, rfl⟩ := fuel_succ (by omega : 1 ≤ fuel)
     obtain ⟨g, rfl⟩ := fuel_succ (by omega : 1 ≤ f)
     have hs := hfind ext
-    simp only [regenSmt, hs, genStmt]
-    simp only [new_pop, popScope_pop] at hfr ⊢
-    have hFlen : ((buildStmts fc none b K).pop ++ [Row.whl st.pop.length X.2.pop.length X.1]).length =
+    simp only [new_pop, popScope_pop] at hfr hs ⊢
+    have hFlen : ((buildStmts fc none b K).pop ++ [mk V.pop.length]).length =
         (buildStmts fc none b K).pop.length + 1 := by simp
     rw [hFlen] at hfr
     have hinl : (buildStmts fc none b K).pop.length = K.pop.length + dC.length := by rw [hdC]; simp
-    -- the condition
-    have hval : regenVal ((buildStmts fc none b K).pop ++ [Row.whl st.pop.length X.2.pop.length X.1] ++ ext) (g + 1) X.1 =
-        genExpr e := by
-      have := hEregen ([Row.blk false] ++ dC ++ [Row.whl st.pop.length X.2.pop.length X.1] ++ ext) (g + 1) (by omega)
-      have e1 : (buildStmts fc none b K).pop ++ [Row.whl st.pop.length X.2.pop.length X.1] ++ ext =
-          X.2.pop ++ ([Row.blk false] ++ dC ++ [Row.whl st.pop.length X.2.pop.length X.1] ++ ext) := by
-        simp [hdC, hKpop]
-      rw [e1]; exact this
     -- rows up to the new block are no statement of it
-    have hbefore : ∀ i x, i ≤ X.2.pop.length →
-        ((buildStmts fc none b K).pop ++ [Row.whl st.pop.length X.2.pop.length X.1] ++ ext)[i]? = some x →
-        ∀ p, x ≠ .smt X.2.pop.length p := by
+    have hbefore : ∀ i x, i ≤ V.pop.length →
+        ((buildStmts fc none b K).pop ++ [mk V.pop.length] ++ ext)[i]? = some x →
+        ∀ p, x ≠ .smt V.pop.length p := by
       intro i x hi hx p hxe
       have h2 : i < (buildStmts fc none b K).pop.length := by omega
       rw [List.append_assoc, List.getElem?_append_left h2, hdC, List.getElem?_append_left (by omega), hKpop] at hx
-      by_cases h3 : i < X.2.pop.length
+      by_cases h3 : i < V.pop.length
       · rw [List.getElem?_append_left h3] at hx
-        have := (hVts i x hx).2.2 X.2.pop.length (by subst hxe; simp [skeys])
+        have := (hVts i x hx).2.2 V.pop.length (by subst hxe; simp [skeys])
         omega
-      · have : i = X.2.pop.length := by omega
+      · have : i = V.pop.length := by omega
         subst this
         rw [List.getElem?_append_right (Nat.le_refl _)] at hx
         simp at hx; subst hx; cases hxe
-    have hfirst : firstStmt ((buildStmts fc none b K).pop ++ [Row.whl st.pop.length X.2.pop.length X.1] ++ ext)
-        X.2.pop.length = headOf K.pop.length b := by
+    have hfirst : firstStmt ((buildStmts fc none b K).pop ++ [mk V.pop.length] ++ ext)
+        V.pop.length = headOf K.pop.length b := by
       cases b with
       | nil =>
         have hk : buildStmts fc none .nil K = K := by simp [buildStmts]
@@ -1317,14 +1314,14 @@ theorem while_spec {fc : FCtx} {prev : Option Nat} {e : Expr} {b : Block} {st : 
             rw [hk] at hbefore
             exact hbefore i x (by rw [hKpop] at hil; simp at hil; omega)
               (by rw [List.append_assoc, List.getElem?_append_left hil]; exact hi) p hxe
-          · simp at h; subst h; cases hxe
+          · simp at h; rw [h] at hxe; exact hmkne _ _ hxe
         · obtain ⟨h1, _⟩ := hfr x h
           have := (h1 _ p hxe).1
           rw [hk] at this
           omega
       | cons s r =>
         obtain ⟨d', hd'⟩ := hheadC s r rfl
-        obtain ⟨row, hrow, hik⟩ := C.first ([Row.whl st.pop.length X.2.pop.length X.1] ++ ext) s r rfl
+        obtain ⟨row, hrow, hik⟩ := C.first ([mk V.pop.length] ++ ext) s r rfl
         rw [← List.append_assoc] at hrow
         simp only [headOf]
         rw [hKlen] at hrow ⊢
@@ -1333,14 +1330,14 @@ theorem while_spec {fc : FCtx} {prev : Option Nat} {e : Expr} {b : Block} {st : 
         rw [List.append_assoc, List.getElem?_append_left (by rw [hinl, hKlen]; omega), hdC,
           List.getElem?_append_right (by omega), hd', hcbK]
         simp [hKlen]
-    have hblk : regenBlk ((buildStmts fc none b K).pop ++ [Row.whl st.pop.length X.2.pop.length X.1] ++ ext) (g + 1)
-        X.2.pop.length = genBlock b := by
+    have hblk : regenBlk ((buildStmts fc none b K).pop ++ [mk V.pop.length] ++ ext) (g + 1)
+        V.pop.length = genBlock b := by
       simp only [regenBlk, hfirst]
       rw [List.append_assoc]
-      apply C.regen ([Row.whl st.pop.length X.2.pop.length X.1] ++ ext) g _ (by omega)
+      apply C.regen ([mk V.pop.length] ++ ext) g _ (by omega)
       intro x hx k hk
       rcases List.mem_append.1 hx with h | h
-      · simp at h; subst h; simp [skeys] at hk
+      · simp at h; subst h; rw [hmk.2.1] at hk; cases hk
       · obtain ⟨h1, h2⟩ := hfr x h
         cases x with
         | smt b' p =>
@@ -1354,11 +1351,22 @@ theorem while_spec {fc : FCtx} {prev : Option Nat} {e : Expr} {b : Block} {st : 
         | el a1 a2 a3 a4 => simp [skeys] at hk; subst hk; have := h2 k (by simp [ikeys]); omega
         | e a1 a2 a3 => simp [skeys] at hk; subst hk; have := h2 k (by simp [ikeys]); omega
         | _ => simp [skeys] at hk
-    rw [hval, hblk]
-  refine ⟨hok0, by rw [hb], ⟨dE ++ [Row.blk false] ++ dC ++ [.whl st.pop.length X.2.pop.length X.1], ?_, ?_, ?_⟩,
+    have e1 : (buildStmts fc none b K).pop ++ [mk V.pop.length] ++ ext =
+        V.pop ++ ([Row.blk false] ++ dC ++ [mk V.pop.length] ++ ext) := by simp [hdC, hKpop]
+    rw [e1] at hs hblk ⊢
+    apply hprint _ (g + 1) hf _ hs hblk
+    intro x hx k hk hkn
+    subst hkn
+    simp only [List.mem_append, List.mem_singleton] at hx
+    rcases hx with ((hx | hx) | hx) | hx
+    · subst hx; simp [ikeys] at hk
+    · have := (hkC x hx).2 _ hk; omega
+    · subst hx; rw [hmkik] at hk; cases hk
+    · have := (hfr x hx).2 _ hk; omega
+  refine ⟨hok0, by rw [hb], ⟨dE ++ [Row.blk false] ++ dC ++ [mk V.pop.length], ?_, ?_, ?_⟩,
     ⟨?_, ?_, ?_⟩, ?_, ?_, ?_, ?_, ?_⟩
   · rw [hb]; exact hP
-  · simp [szS]; omega
+  · simp; omega
   · intro x hx
     rcases List.mem_append.1 hx with h | h
     · obtain ⟨h1, h2, h3⟩ := hD x h
@@ -1366,21 +1374,22 @@ theorem while_spec {fc : FCtx} {prev : Option Nat} {e : Expr} {b : Block} {st : 
       intro b' p hxe
       exact ⟨.inr (h2 b' p hxe).1, (h2 b' p hxe).2⟩
     · simp at h; subst h
-      exact ⟨fun k hk => (by simp [Row.smtOf] at hk; omega), fun b' p h => (by cases h), fun k hk => (by simp [ikeys] at hk)⟩
+      exact ⟨fun k hk => (by rw [hmk.1] at hk; cases hk; exact Nat.le_refl _), fun b' p h => absurd h (hmkne b' p),
+        fun k hk => (by rw [hmkik] at hk; cases hk)⟩
   · rw [hb]; exact hTS
   · rw [hb]
-    exact hVsym.mono (hFsc.trans hVsc.symm) (d := [Row.blk false] ++ dC ++ [.whl st.pop.length X.2.pop.length X.1])
+    exact hVsym.mono (hFsc.trans hVsc.symm) (d := [Row.blk false] ++ dC ++ [mk V.pop.length])
       (by simp [hdC, hKpop])
   · rw [hb]
     refine ⟨b0, by rw [hFsc]; exact hb0, ?_⟩
     rw [hP]; simp; omega
   · rw [hb]; rw [hFsc]; exact ⟨rfl, rfl⟩
-  · intro ext; rw [hb]; exact ⟨_, hfind ext, rfl⟩
+  · intro ext; rw [hb]; exact ⟨_, hfind ext, hmkik⟩
   · intro ext fuel hfr hf; rw [hb] at hfr ⊢; exact hregen ext fuel hfr hf
   · intro ext i b' p hi hge hlt
     rw [hb] at hi hlt ⊢
     by_cases hin : i = st.pop.length
-    · subst hin; exact ⟨_, hfind ext, rfl⟩
+    · subst hin; exact ⟨_, hfind ext, hmk.1⟩
     · simp only [new_pop, popScope_pop] at hi hlt ⊢
       by_cases h1 : i < K.pop.length
       · exfalso
@@ -1392,22 +1401,116 @@ theorem while_spec {fc : FCtx} {prev : Option Nat} {e : Expr} {b : Block} {st : 
         simp only [List.cons_append, List.getElem?_cons_succ] at hi
         have hm := List.mem_of_getElem? hi
         rcases List.mem_append.1 hm with h | h
-        · have := (expr_rows_plain (fc := fc) (e := e) (st := st) hoE _ h).2; simp [skeys] at this
+        · have := (hplain _ h).2; simp [skeys] at this
         · simp at h
       · by_cases h2 : i < (buildStmts fc none b K).pop.length
         · rw [List.append_assoc] at hi ⊢
-          exact C.subsAll ([.whl st.pop.length X.2.pop.length X.1] ++ ext) i b' p hi (by omega) h2
+          exact C.subsAll ([mk V.pop.length] ++ ext) i b' p hi (by omega) h2
         · exfalso
           have : i = (buildStmts fc none b K).pop.length := by simp at hlt; omega
           subst this
           rw [List.append_assoc, List.getElem?_append_right (Nat.le_refl _)] at hi
-          simp at hi
+          simp at hi; exact hmkne _ _ hi
   · intro ext hext
     rw [hb]
     simp only [new_pop, popScope_pop]
-    exact subCount_parts hnone hext rfl
+    exact subCount_parts hnone hext hmk.1
 
+/-- `while`: ACT_SMT, the condition's values, a new ACT_BLK with its scope and statement list, ACT_WHL -/
+theorem while_spec {fc : FCtx} {prev : Option Nat} {e : Expr} {b : Block} {st : St} (hce : coreE e = true)
+    (hinv : Inv st) (hprev : ∀ k, prev = some k → k < st.pop.length)
+    (hok : (buildStmt fc prev (.while_ e b) st).2.ok = true)
+    (hM : ∀ st' : St, (buildStmts fc none b st').ok = true → st'.ok = true)
+    (hC : ∀ st' : St, Inv st' → (buildStmts fc none b st').ok = true → ChainSpec fc none b st') :
+    StmtSpec fc prev (.while_ e b) st := by
+  have hb : buildStmt fc prev (.while_ e b) st = (st.pop.length,
+      ((popScope (buildStmts fc none b (pushScope (.blk (buildExpr fc e (newSmt prev st).2).2.pop.length)
+        ((buildExpr fc e (newSmt prev st).2).2.new (.blk false)).2))).new
+        (.whl st.pop.length (buildExpr fc e (newSmt prev st).2).2.pop.length (buildExpr fc e (newSmt prev st).2).1)).2) := by
+    simp [buildStmt, withBlock]
+  have hokV : (buildExpr fc e (newSmt prev st).2).2.ok = true := by
+    have h1 : (buildStmts fc none b (pushScope (.blk (buildExpr fc e (newSmt prev st).2).2.pop.length)
+        ((buildExpr fc e (newSmt prev st).2).2.new (.blk false)).2)).ok = true := by rw [hb] at hok; simpa using hok
+    simpa using hM _ h1
+  have hts0 := newSmt_ts hinv hprev
+  have E := buildExpr_spec fc e (newSmt prev st).2 hce (newSmt_sym hinv) hts0.tsv hokV
+  obtain ⟨dE, hdE, hlE, _, hoE⟩ := E.grows
+  apply blockStmt_spec (buildExpr fc e (newSmt prev st).2).2
+    (fun k => .whl st.pop.length k (buildExpr fc e (newSmt prev st).2).1) dE hb hinv hok
+    (by rw [hdE]; simp) (expr_rows_plain (fc := fc) (e := e) (st := st) hoE) (hts0.expr E)
+    (E.symOK (newSmt_sym hinv)) (by rw [E.scopes]; simp) (fun h => by have := E.ok0; simp at this; exact this.1)
+    ⟨rfl, rfl, rfl⟩ (by simp [szS]; omega) (by simp [szS]) hM hC
+  intro rest f hf _ hs hblk
+  simp only [szS] at hf
+  have := E.regen rest f (by omega)
+  simp only [regenSmt, hs, genStmt, this, hblk]
 
+theorem no_clauses {q : FlatPop} {n : Nat} (h : ∀ x ∈ q, ∀ k ∈ ikeys x, k ≠ n) : elifsOf q n = [] ∧ elseOf q n = none := by
+  constructor
+  · unfold elifsOf
+    rw [List.filter_eq_nil_iff]
+    intro x hx
+    cases x with
+    | el a1 a2 a3 a4 => have := h _ hx a4 (by simp [ikeys]); simpa using this
+    | _ => simp
+  · unfold elseOf
+    rw [List.find?_eq_none]
+    intro x hx
+    cases x with
+    | e a1 a2 a3 => have := h _ hx a3 (by simp [ikeys]); simpa using this
+    | _ => simp
+
+/-- `if` without elif / else: ACT_SMT, the condition's values, a new ACT_BLK and its statement list, ACT_IF; no ACT_EL /
+    ACT_E row names the statement (R682 / R683 navigate to nothing) -/
+theorem if_spec {fc : FCtx} {prev : Option Nat} {e : Expr} {b : Block} {st : St} (hce : coreE e = true)
+    (hinv : Inv st) (hprev : ∀ k, prev = some k → k < st.pop.length)
+    (hok : (buildStmt fc prev (.if_ e b .nil .none) st).2.ok = true)
+    (hM : ∀ st' : St, (buildStmts fc none b st').ok = true → st'.ok = true)
+    (hC : ∀ st' : St, Inv st' → (buildStmts fc none b st').ok = true → ChainSpec fc none b st') :
+    StmtSpec fc prev (.if_ e b .nil .none) st := by
+  have hb : buildStmt fc prev (.if_ e b .nil .none) st = (st.pop.length,
+      ((popScope (buildStmts fc none b (pushScope (.blk (buildExpr fc e (newSmt prev st).2).2.pop.length)
+        ((buildExpr fc e (newSmt prev st).2).2.new (.blk false)).2))).new
+        (.if_ st.pop.length (buildExpr fc e (newSmt prev st).2).2.pop.length (buildExpr fc e (newSmt prev st).2).1)).2) := by
+    simp [buildStmt, buildElifs, buildElse, withBlock]
+  have hokV : (buildExpr fc e (newSmt prev st).2).2.ok = true := by
+    have h1 : (buildStmts fc none b (pushScope (.blk (buildExpr fc e (newSmt prev st).2).2.pop.length)
+        ((buildExpr fc e (newSmt prev st).2).2.new (.blk false)).2)).ok = true := by rw [hb] at hok; simpa using hok
+    simpa using hM _ h1
+  have hts0 := newSmt_ts hinv hprev
+  have E := buildExpr_spec fc e (newSmt prev st).2 hce (newSmt_sym hinv) hts0.tsv hokV
+  obtain ⟨dE, hdE, hlE, _, hoE⟩ := E.grows
+  have hplain := expr_rows_plain (fc := fc) (e := e) (st := st) hoE
+  have hVpop : (buildExpr fc e (newSmt prev st).2).2.pop = st.pop ++ (.smt (curBlkD st.scopes) prev :: dE) := by
+    rw [hdE]; simp
+  apply blockStmt_spec (buildExpr fc e (newSmt prev st).2).2
+    (fun k => .if_ st.pop.length k (buildExpr fc e (newSmt prev st).2).1) dE hb hinv hok
+    hVpop hplain (hts0.expr E)
+    (E.symOK (newSmt_sym hinv)) (by rw [E.scopes]; simp) (fun h => by have := E.ok0; simp at this; exact this.1)
+    ⟨rfl, rfl, rfl⟩ (by simp [szS]; omega) (by simp [szS]) hM hC
+  intro rest f hf hik hs hblk
+  simp only [szS] at hf
+  have hszb := one_le_szB b
+  obtain ⟨g, rfl⟩ := fuel_succ (by omega : 1 ≤ f)
+  have := E.regen rest (g + 1) (by omega)
+  have hnc : ∀ x ∈ (buildExpr fc e (newSmt prev st).2).2.pop ++ rest, ∀ k ∈ ikeys x, k ≠ st.pop.length := by
+    intro x hx k hk
+    rcases List.mem_append.1 hx with h | h
+    · rw [hVpop] at h
+      rcases List.mem_append.1 h with h | h
+      · obtain ⟨i, hi⟩ := List.getElem?_of_mem h
+        have h1 := (hinv.ts i x hi).2.2 k (ikeys_sub_skeys x k hk)
+        have h2 := getElem?_lt_of_some hi
+        omega
+      · simp only [List.mem_cons] at h
+        rcases h with rfl | h
+        · simp [ikeys] at hk
+        · have := (hplain x h).2
+          have := ikeys_sub_skeys x k hk
+          simp_all
+    · exact hik x h k hk
+  obtain ⟨h1, h2⟩ := no_clauses hnc
+  simp only [regenSmt, hs, genStmt, this, hblk, h1, h2, regenElifs, genElifs, genElse]
 
 attribute [local irreducible] buildStmt buildStmts in
 mutual
@@ -1447,7 +1550,12 @@ theorem buildStmt_spec (fc : FCtx) : ∀ (s : Stmt) (prev : Option Nat) (st : St
   | .selRel c v hd ch, prev, st, hc, hinv, hprev, hok => by simp [coreS, coreS0] at hc
   | .selRelW c v hd ch w, prev, st, hc, hinv, hprev, hok => by simp [coreS, coreS0] at hc
   | .forEach v sv b, prev, st, hc, hinv, hprev, hok => by simp [coreS, coreS0] at hc
-  | .if_ e b el els, prev, st, hc, hinv, hprev, hok => by simp [coreS, coreS0] at hc
+  | .if_ e b .nil .none, prev, st, hc, hinv, hprev, hok => by
+    simp only [coreS, Bool.and_eq_true] at hc
+    exact if_spec hc.1 hinv hprev hok (fun st' ho => buildStmts_ok_mono_core fc b none st' hc.2 ho) (fun st' hi ho =>
+      buildStmts_spec fc b none st' hc.2 hi (by intro k h; cases h) (okAll_of_ok fc b none st' hc.2 ho))
+  | .if_ e b (.cons _ _ _) els, prev, st, hc, hinv, hprev, hok => by simp [coreS, coreS0] at hc
+  | .if_ e b .nil (.some _), prev, st, hc, hinv, hprev, hok => by simp [coreS, coreS0] at hc
   | .invoke e, prev, st, hc, hinv, hprev, hok => by simp [coreS, coreS0] at hc
   | .genEvt l m d t, prev, st, hc, hinv, hprev, hok => by simp [coreS, coreS0] at hc
   | .createEvt v l m d t, prev, st, hc, hinv, hprev, hok => by simp [coreS, coreS0] at hc
